@@ -33,7 +33,7 @@ MANIFEST = {
     "note": "Pairwise (2-deviation) coverage of the axes, not the full product; axis value lists are finite.",
 }
 
-VALS = ["red", "a&b", "a<b", '"q"', "it's", "a b", "\u00e9", "a>b", "x&amp;y"]
+VALS = ["red", "a&b", "a<b", '"q"', "it's", "a b", "\u00e9", "a>b", "x&amp;y", '"Author\'s Hand", cursive']
 TEXTS = ["Hello", "&", "<", "a -->", "&lt;", "<br/>", "]]>", "\u00e9"]
 LAYOUTS = [
     None,
@@ -56,6 +56,7 @@ AXES = {
     "lang": ["en-US"] + VALS[1:7],
     "nlangs": [1, 2, 3],
     "lang_layout": LAYOUTS,
+    "other_lang_layout": LAYOUTS[:4],
     "cap_layout": LAYOUTS,
     "span_layout": LAYOUTS,
     "concurrent": [False, True],
@@ -94,7 +95,7 @@ def build(cfg):
     caps = {}
     langs = [cfg["lang"]] + ["fr-FR", "de-DE"][: cfg["nlangs"] - 1]
     for li, lang in enumerate(langs):
-        cl = CaptionList(layout_info=mk_layout(cfg["lang_layout"]) if li == 0 else None)
+        cl = CaptionList(layout_info=mk_layout(cfg["lang_layout"]) if li == 0 else mk_layout(cfg["other_lang_layout"]))
         # caption 1: text, optionally with a styled span
         nodes = [CaptionNode.create_text(cfg["text"])]
         sp = cfg["span_style"]
@@ -113,7 +114,7 @@ def build(cfg):
             style = {cfg["cap_style_key"]: cfg["cap_style_val"]}
         cl.append(Caption(1000000, 2000000, nodes, style=style, layout_info=mk_layout(cfg["cap_layout"])))
         t2 = (1000000, 2000000) if cfg["concurrent"] else (3000000, 4000000)
-        cl.append(Caption(t2[0], t2[1], [CaptionNode.create_text("second " + lang[:2])]))
+        cl.append(Caption(t2[0], t2[1], [CaptionNode.create_text("second " + lang[:2])], layout_info=mk_layout(cfg["other_lang_layout"]) if li else None))
         cl.append(Caption(5000000, 6000000, [CaptionNode.create_text("third")]))
         caps[lang] = cl
     cs = CaptionSet(caps)
@@ -435,9 +436,10 @@ def run_shard(d):
 
 def _fix_cfg(cfg):
     cfg = dict(cfg)
-    for k in ("lang_layout", "cap_layout", "span_layout"):
-        if isinstance(cfg[k], list):
+    for k in ("lang_layout", "cap_layout", "span_layout", "other_lang_layout"):
+        if isinstance(cfg.get(k), list):
             cfg[k] = tuple(tuple(x) if isinstance(x, list) else x for x in cfg[k])
+    cfg.setdefault("other_lang_layout", None)
     return cfg
 
 
@@ -461,10 +463,7 @@ def replay(case):
                 out = [{"sig": f"C07/{w}/{kind}/writer-object-reused/after:{prev}", "detail": det} for kind, det in check_doc(doc, langs, nps, None)]
         return out
     if case["k"] == "api":
-        cfg = dict(case["cfg"])
-        for k in ("lang_layout", "cap_layout", "span_layout"):
-            if isinstance(cfg[k], list):
-                cfg[k] = tuple(tuple(x) if isinstance(x, list) else x for x in cfg[k])
+        cfg = _fix_cfg(case["cfg"])
         v, _ = evaluate(cfg, case["w"], case["opt"])
         return [{"sig": s, "detail": d} for s, d in v]
     import pycaption
